@@ -15,24 +15,20 @@ CORE = {"orders", "orders.status", "orders.vol", "orders.price", "orders.times",
 
 # profile plans: (profile, histories, ops per history, extra drive args)
 PLANS = {
-    "C01": {"quick": [("enum", "d3", 4, 3, []), ("book", "disciplined", 2400, 60, []), ("book", "modify", 600, 50, []), ("book", "wide", 300, 60, []), ("book", "mixed", 600, 80, ["--levels", "1,3,10"]),
-                      ("book", "edge", 450, 50, ["--levels", "3,10"]), ("book", "unusual", 600, 60, [])],
+    "C01": {"quick": [("enum", "d3", 4, 3, []), ("book", "disciplined", 2400, 60, []), ("book", "modify", 600, 50, []), ("book", "wide", 300, 60, []), ("book", "mixed", 600, 80, ["--levels", "1,3,10"])],
             "thorough": [("enum", "d4", 16, 4, []), ("book", "disciplined", 12000, 120, ["--levels", "1,3,10,24"]), ("book", "modify", 3000, 100, []),
-                         ("book", "edge", 3000, 80, ["--levels", "1,3,10"]), ("book", "unusual", 4000, 100, ["--levels", "1,3,10"]),
                          ("book", "wide", 2000, 100, []), ("book", "toggle", 2000, 100, []), ("book", "mixed", 3000, 120, ["--levels", "1,3,10"])]},
     "C02": {"quick": [("enum", "d3", 4, 3, []), ("book", "disciplined", 900, 60, ["--levels", "1,2,3,5,10,24"]), ("book", "toggle", 900, 60, ["--levels", "1,2,3,5,10,24"]),
                       ("book", "modify", 600, 60, ["--levels", "1,3,10"]), ("book", "reload", 300, 60, ["--levels", "1,5,24"]),
-                      ("market", "plain", 180, 80, []), ("book", "mixed", 600, 80, ["--levels", "1,3,10"]), ("book", "unusual", 600, 60, ["--levels", "1,3,10"])],
-            "thorough": [("enum", "d4", 16, 4, []), ("book", "unusual", 4000, 100, ["--levels", "1,3,10,24"]), ("book", "disciplined", 8000, 120, ["--levels", "1,2,3,5,10,24"]), ("book", "toggle", 5000, 120, ["--levels", "1,2,3,5,10,24"]),
+                      ("market", "plain", 180, 80, []), ("book", "mixed", 600, 80, ["--levels", "1,3,10"])],
+            "thorough": [("enum", "d4", 16, 4, []), ("book", "disciplined", 8000, 120, ["--levels", "1,2,3,5,10,24"]), ("book", "toggle", 5000, 120, ["--levels", "1,2,3,5,10,24"]),
                          ("book", "modify", 3000, 120, ["--levels", "1,3,10"]), ("book", "reload", 2000, 100, ["--levels", "1,5,24"]),
                          ("book", "wide", 2000, 100, []), ("market", "plain", 1000, 100, []), ("menv", "plain", 1000, 10, []), ("book", "mixed", 3000, 120, ["--levels", "1,3,10"])]},
-    "C03": {"quick": [("enum", "d3", 4, 3, []), ("book", "disciplined", 1200, 60, []), ("book", "toggle", 600, 60, []), ("book", "modify", 900, 60, []), ("book", "mixed", 600, 80, ["--levels", "1,3,10"]),
-                      ("book", "unusual", 600, 60, [])],
-            "thorough": [("enum", "d4", 16, 4, []), ("book", "unusual", 4000, 100, []), ("book", "disciplined", 10000, 120, []), ("book", "toggle", 4000, 120, []), ("book", "modify", 4000, 120, []),
+    "C03": {"quick": [("enum", "d3", 4, 3, []), ("book", "disciplined", 1200, 60, []), ("book", "toggle", 600, 60, []), ("book", "modify", 900, 60, []), ("book", "mixed", 600, 80, ["--levels", "1,3,10"])],
+            "thorough": [("enum", "d4", 16, 4, []), ("book", "disciplined", 10000, 120, []), ("book", "toggle", 4000, 120, []), ("book", "modify", 4000, 120, []),
                          ("book", "wide", 2000, 100, []), ("market", "plain", 1000, 100, []), ("book", "mixed", 3000, 120, ["--levels", "1,3,10"])]},
-    "C04": {"quick": [("enum", "d3", 4, 3, []), ("book", "redundant", 1500, 80, []), ("book", "toggle", 600, 60, []), ("book", "modify", 450, 60, []), ("book", "mixed", 600, 80, ["--levels", "1,3,10"]),
-                      ("book", "unusual", 900, 60, [])],
-            "thorough": [("enum", "d3", 4, 3, []), ("enum", "d3tick1", 4, 3, ["--tick", "1"]), ("book", "unusual", 5000, 100, []), ("book", "redundant", 8000, 150, []), ("book", "toggle", 3000, 120, []), ("book", "disciplined", 3000, 120, []),
+    "C04": {"quick": [("enum", "d3", 4, 3, []), ("book", "redundant", 1500, 80, []), ("book", "toggle", 600, 60, []), ("book", "modify", 450, 60, []), ("book", "mixed", 600, 80, ["--levels", "1,3,10"])],
+            "thorough": [("enum", "d3", 4, 3, []), ("enum", "d3tick1", 4, 3, ["--tick", "1"]), ("book", "redundant", 8000, 150, []), ("book", "toggle", 3000, 120, []), ("book", "disciplined", 3000, 120, []),
                          ("book", "modify", 3000, 120, []), ("book", "mixed", 3000, 120, ["--levels", "1,3,10"])]},
     "C05": {"quick": [("enum", "d3ties", 4, 3, ["--ties", "1"]), ("book", "ties", 1500, 60, []), ("book", "ties", 600, 60, ["--prices", "2"]),
                       ("env", "overfull", 300, 8, []), ("menv", "overfull", 300, 8, [])],
@@ -40,24 +36,20 @@ PLANS = {
                          ("book", "ties", 2000, 100, ["--levels", "1,10,24"]),
                          ("env", "overfull", 2000, 12, []), ("menv", "overfull", 2000, 12, [])]},
     "C06": {"quick": [("enum", "d3", 4, 3, []), ("book", "modify", 1500, 40, ["--levels", "5"]), ("book", "modify", 600, 60, ["--prices", "2"]),
-                      ("book", "toggle", 900, 60, []), ("book", "mixed", 600, 80, ["--levels", "1,3,10"]), ("book", "unusual", 600, 60, [])],
-            "thorough": [("enum", "d4", 16, 4, []), ("book", "unusual", 4000, 100, []), ("book", "modify", 10000, 80, ["--levels", "5"]), ("book", "modify", 4000, 120, ["--prices", "2"]),
+                      ("book", "toggle", 900, 60, []), ("book", "mixed", 600, 80, ["--levels", "1,3,10"])],
+            "thorough": [("enum", "d4", 16, 4, []), ("book", "modify", 10000, 80, ["--levels", "5"]), ("book", "modify", 4000, 120, ["--prices", "2"]),
                          ("book", "toggle", 2000, 100, []), ("book", "mixed", 3000, 120, ["--levels", "1,3,10"])]},
-    "C07": {"quick": [("book", "unusual", 600, 60, ["--levels", "1,10"]), ("book", "reload", 900, 60, ["--levels", "1,10"]), ("market", "reload", 300, 80, ["--levels", "1,10"]), ("book", "mixed", 600, 80, ["--levels", "1,3,10"])],
-            "thorough": [("book", "unusual", 4000, 100, ["--levels", "1,3,10"]), ("book", "reload", 6000, 120, ["--levels", "1,3,10,24"]), ("market", "reload", 2000, 120, ["--levels", "1,3,10"]), ("book", "mixed", 3000, 120, ["--levels", "1,3,10"])]},
+    "C07": {"quick": [("book", "reload", 900, 60, ["--levels", "1,10"]), ("market", "reload", 300, 80, ["--levels", "1,10"]), ("book", "mixed", 600, 80, ["--levels", "1,3,10"])],
+            "thorough": [("book", "reload", 6000, 120, ["--levels", "1,3,10,24"]), ("market", "reload", 2000, 120, ["--levels", "1,3,10"]), ("book", "mixed", 3000, 120, ["--levels", "1,3,10"])]},
     "C08": {"quick": [("env", "plain", 900, 8, ["--levels", "3"]), ("menv", "plain", 600, 8, ["--levels", "3"]),
-                      ("env", "toggle", 300, 8, []), ("menv", "toggle", 300, 8, []), ("env", "overfull", 300, 8, []), ("menv", "overfull", 300, 8, []),
-                      ("env", "unusual", 300, 8, []), ("menv", "unusual", 300, 8, []), ("env", "long", 16, 250, []), ("menv", "long", 16, 250, [])],
+                      ("env", "toggle", 300, 8, []), ("menv", "toggle", 300, 8, []), ("env", "long", 16, 250, []), ("menv", "long", 16, 250, [])],
             "thorough": [("env", "long", 64, 1500, []), ("menv", "long", 64, 1500, []), ("env", "plain", 5000, 12, ["--levels", "1,3,10"]), ("menv", "plain", 4000, 12, ["--levels", "1,3,10"]),
-                         ("env", "toggle", 2000, 12, []), ("menv", "toggle", 2000, 12, []), ("env", "overfull", 2000, 12, []), ("menv", "overfull", 2000, 12, []),
-                         ("env", "unusual", 2000, 12, []), ("menv", "unusual", 2000, 12, [])]},
-    "C10": {"quick": [("env", "plain", 600, 8, []), ("menv", "plain", 600, 8, []), ("menv", "toggle", 300, 8, []),
-                      ("env", "malformed", 300, 6, []), ("menv", "malformed", 300, 6, []),
-                      ("env", "unusual", 450, 8, []), ("menv", "unusual", 450, 8, [])],
+                         ("env", "toggle", 2000, 12, []), ("menv", "toggle", 2000, 12, [])]},
+    "C10": {"quick": [("env", "plain", 600, 8, []), ("menv", "plain", 600, 8, []), ("menv", "toggle", 300, 8, []), ("env", "toggle", 300, 8, [])],
             "thorough": [("env", "plain", 4000, 12, ["--levels", "1,3,10"]), ("menv", "plain", 4000, 12, ["--levels", "1,3,10"]),
-                         ("menv", "toggle", 2000, 12, []), ("env", "malformed", 1000, 10, []), ("env", "unusual", 3000, 12, []), ("menv", "unusual", 3000, 12, [])]},
+                         ("menv", "toggle", 2000, 12, []), ("env", "toggle", 2000, 12, [])]},
     "C11": {"quick": [("env", "plain", 600, 10, ["--levels", "1,2,5,10,24"]), ("menv", "plain", 600, 10, ["--levels", "1,3,10"]),
-                      ("env", "unusual", 300, 8, []), ("menv", "unusual", 300, 8, ["--assets", "2,3,4"])],
+                      ("menv", "plain", 300, 8, ["--assets", "2,3,4", "--levels", "1,2,3"])],
             "thorough": [("env", "plain", 5000, 30, ["--levels", "1,2,5,10,24"]), ("menv", "plain", 4000, 30, ["--levels", "1,3,10"]),
                          ("menv", "toggle", 1000, 20, [])]},
     "C12": {"quick": [("book", "malformed", 1200, 50, []), ("book", "disciplined", 300, 50, []), ("book", "edge", 900, 50, ["--levels", "3,10"]),
@@ -66,8 +58,8 @@ PLANS = {
                          ("book", "edge", 5000, 80, ["--levels", "1,3,10,24"]),
                          ("market", "malformed", 2000, 100, []), ("env", "malformed", 2000, 10, []), ("menv", "malformed", 2000, 10, [])]},
     "C13": {"quick": [("enum", "d3toggle", 4, 3, ["--toggle", "1"]), ("book", "toggle", 1500, 60, []), ("market", "plain", 300, 80, []), ("env", "toggle", 300, 8, []),
-                      ("menv", "toggle", 300, 8, []), ("book", "mixed", 600, 80, ["--levels", "1,3,10"]), ("book", "unusual", 600, 60, [])],
-            "thorough": [("book", "unusual", 4000, 100, []), ("enum", "d3toggleties", 4, 3, ["--toggle", "1", "--ties", "1", "--profile", "toggle"]), ("enum", "d3toggle", 4, 3, ["--toggle", "1"]), ("book", "toggle", 12000, 120, []), ("book", "toggle", 2000, 100, ["--prices", "2"]),
+                      ("menv", "toggle", 300, 8, []), ("book", "mixed", 600, 80, ["--levels", "1,3,10"])],
+            "thorough": [("enum", "d3toggleties", 4, 3, ["--toggle", "1", "--ties", "1", "--profile", "toggle"]), ("enum", "d3toggle", 4, 3, ["--toggle", "1"]), ("book", "toggle", 12000, 120, []), ("book", "toggle", 2000, 100, ["--prices", "2"]),
                          ("market", "plain", 2000, 100, []), ("env", "toggle", 2000, 12, []), ("menv", "toggle", 2000, 12, []), ("book", "mixed", 3000, 120, ["--levels", "1,3,10"])]},
     "C14": {"quick": [("market", "plain", 900, 80, ["--levels", "1,3,10"]), ("market", "malformed", 450, 60, []), ("menv", "plain", 600, 8, ["--assets", "1,2,3,4"]),
                       ("menv", "unusual", 300, 8, ["--assets", "2,3,4"]),
@@ -78,6 +70,32 @@ PLANS = {
                       ("env", "long", 16, 250, []), ("menv", "long", 16, 250, [])],
             "thorough": [("env", "long", 64, 1500, []), ("menv", "long", 64, 1500, []), ("env", "plain", 20000, 10, []), ("menv", "plain", 10000, 10, []), ("env", "overfull", 3000, 8, [])]},
 }
+
+
+# Profiles OUTSIDE the properties' own quantifiers ("Valid histories: ... order and modify volumes >= 1, limit prices ...
+# strictly between 0 and 2^32-1 ... the clock is never moved backwards"; C08: "Batch sizes up to the step size"). A change that
+# only alters behaviour there does not break the property as quantified, so the registered checks do not run them. They are
+# kept for development (`bin/check Cxx --extended`, `tools/seedsweep.sh` records the outcome separately): the model, the
+# reference engine and the implementation agree on them too.
+EXTENDED = {
+    "C01": [("book", "edge", 450, 50, ["--levels", "3,10"]), ("book", "unusual", 600, 60, []), ("book", "toggle", 600, 60, [])],
+    "C02": [("book", "unusual", 600, 60, ["--levels", "1,3,10"])],
+    "C03": [("book", "unusual", 600, 60, [])],
+    "C04": [("book", "unusual", 900, 60, [])],
+    "C06": [("book", "unusual", 600, 60, [])],
+    "C07": [("book", "unusual", 600, 60, ["--levels", "1,10"])],
+    "C08": [("env", "overfull", 300, 8, []), ("menv", "overfull", 300, 8, []), ("env", "unusual", 300, 8, []), ("menv", "unusual", 300, 8, [])],
+    "C10": [("env", "malformed", 300, 6, []), ("menv", "malformed", 300, 6, []), ("env", "unusual", 450, 8, []), ("menv", "unusual", 450, 8, [])],
+    "C11": [("env", "unusual", 300, 8, []), ("menv", "unusual", 300, 8, ["--assets", "2,3,4"])],
+    "C13": [("book", "unusual", 600, 60, [])],
+}
+
+
+def plans_for(prop, tier):
+    plans = list(PLANS[prop][tier])
+    if os.environ.get("VERIF_EXTENDED") == "1":
+        plans += EXTENDED.get(prop, [])
+    return plans
 
 
 class Finding:
@@ -302,7 +320,7 @@ def shrink(lines, pred, workdir, budget=400):
 def check(prop, tier, seed, spec, verdict, workdir):
     """spec: dict(modules=[...], a=pred(Finding)->bool, k=pred(Finding)->bool, known=[...])
     Fills verdict; returns coverage dict."""
-    plans = PLANS[prop][tier]
+    plans = plans_for(prop, tier)
     # --- T: theorems ---
     pr = C.prove(prop, spec["modules"], clean=(tier == "thorough"))
     if tier == "thorough":
@@ -466,7 +484,7 @@ def decide(prop, tier, seed, spec, verdict, workdir, pr, finds, stats, totals, s
 
 def search(prop, seed, spec, workdir):
     """Case-3 search: more and longer histories, the property's audit as oracle."""
-    plans = PLANS[prop]["quick"]
+    plans = plans_for(prop, "quick")
     sd = os.path.join(workdir, "search")
     with cf.ThreadPoolExecutor(max_workers=16) as ex:
         futs = []
@@ -538,10 +556,10 @@ def is_env(f):
 
 SPECS = {
     "C01": dict(modules=["Bourse.Props.C01"],
-                # the reference-engine mismatch of an operation executed while trading is enabled (what happens while it
-                # is disabled is C13's); a failure whose minimal history needs a snapshot reload belongs to C07
-                a=lambda f: f.kind == "R" and f.profile != "ties" and bool(cfields(f)) and f.tr == "1",
-                needs=lambda lines: not any(l.startswith("O reload") for l in lines),
+                a=lambda f: f.kind == "R" and f.profile != "ties" and bool(cfields(f)),
+                # C01 quantifies over create / place / cancel / process-event / set-time: a failure whose minimal history needs a
+                # snapshot reload or a disabled period belongs to C07 / C13 (their quantifiers name those operations)
+                needs=lambda lines: not any(l.startswith(("O reload", "O trading 0")) or (l.startswith("H ") and " book " in l and l.split()[6] == "0") for l in lines),
                 k=lambda f: f.kind == "K" and (bool(cfields(f)) or any(x.startswith(("fault", "harness", "driver", "bad", "unpars")) for x in f.fields))),
     "C02": dict(modules=["Bourse.Props.C02"],
                 a=lambda f: (f.kind == "A" and f.audit == "C02") or (f.kind == "R" and not cfields(f) and bool(f.fields & VIEWS)),
@@ -560,7 +578,10 @@ SPECS = {
                 a=lambda f: (f.kind == "A" and f.audit == "C06") or (f.kind == "R" and bool(cfields(f)) and f.profile in ("modify", "toggle", "mixed", "unusual"))
                             # published volumes after a modification (reduced in place or re-entered "as if newly arrived")
                             or (f.kind in ("R", "A") and (f.kind == "R" or f.audit == "C02") and "modify" in f.op and bool(f.fields & VIEWS)),
-                needs=lambda lines: any(l.startswith(("O modify", "O ev modify")) for l in lines),
+                # C06 quantifies over books reachable under C01's operations: a failure whose minimal history needs a disabled
+                # period or a snapshot reload belongs to C13 / C07
+                needs=lambda lines: any(l.startswith(("O modify", "O ev modify")) for l in lines)
+                                    and not any(l.startswith(("O reload", "O trading 0")) or (l.startswith("H ") and " book " in l and l.split()[6] == "0") for l in lines),
                 k=lambda f: f.kind == "K" and bool(cfields(f)) and "modify" in f.op),
     "C07": dict(modules=["Bourse.Props.C07"],
                 a=lambda f: f.kind == "A" and f.audit == "C07",
@@ -570,9 +591,7 @@ SPECS = {
                                            or (f.kind == "R" and f.op == "step")),
                 k=lambda f: is_env(f) and f.kind == "K" and f.op == "step"),
     "C10": dict(modules=["Bourse.Props.C10"],
-                # a refused submission that leaves a trace is a submission that changed something observable
-                a=lambda f: is_env(f) and f.kind == "A" and (f.audit == "C10" or (f.audit == "SH" and f.op != "step")
-                                                             or (f.audit == "C12" and "rejected_submission_no_trace" in f.fields)),
+                a=lambda f: is_env(f) and f.kind == "A" and (f.audit == "C10" or (f.audit == "SH" and f.op != "step")),
                 k=lambda f: is_env(f) and f.kind == "K" and (f.op != "step" or "cached_l2" in f.fields)),
     "C11": dict(modules=["Bourse.Props.C11"],
                 a=lambda f: is_env(f) and f.kind == "A" and f.audit == "C11",
